@@ -281,6 +281,7 @@ pub fn main(args: &util::Args) {
                 overlapping_impls: true,
                 result_only_generics: true,
                 cov_shapes: i % 4 == 1,
+                finite_polyrec: true,
                 ..Default::default()
             }
         } else { crate::progen::Cfg {
